@@ -344,8 +344,12 @@ package prunner
 //@   at call (*PipelineRunner).JobCompleted#1: assert [C01.order] $scheduleReturned
 //@   at call (*PipelineRunner).JobCompleted#1: assert [C04.cancelMeansError] sched.cancelled == 1 ==> lastErr != nil
 //@   at call (*PipelineRunner).JobCompleted#1: assert [C04.ownJob] id == job.ID
+//@   at after (*PipelineRunner).JobCompleted#1: ghost $completionReported := true
+//@   ensures  [C03.completionReported] $completionReported
 
 //@ ghost $scheduleReturned scalar Bool
+// the goroutine that ran a job has reported its completion to the runner (JobCompleted was called)
+//@ ghost $completionReported scalar Bool
 
 //@ pure lastOf(s []*PipelineJob) *PipelineJob = s[len(s)-1]
 //@ pure samePrefix(a []*PipelineJob, n int) bool = forall k :: 0 <= k && k < n ==> a[k] == old(a[k])
